@@ -235,7 +235,6 @@ func c04ErrLocus(m *rec.Rec, chain string) string {
 	return "error"
 }
 
-
 // c04OtherVersions: version negotiation (OpenFlow 1.3.5 section 6.3.1). A switch puts the highest version it supports
 // into the header of its hello, and answers a failed negotiation with an OFPET_HELLO_FAILED error that carries its own
 // version; both are conformant with a version byte other than 4 and must parse to the same fields.
